@@ -11,7 +11,7 @@ mod verif_native_connect {
 
     fn check(max_receive_rate: usize, max_receive_alloc: usize) {
         let srv = std::net::UdpSocket::bind("127.0.0.1:0").unwrap();
-        srv.set_read_timeout(Some(Duration::from_millis(500))).unwrap();
+        srv.set_read_timeout(Some(Duration::from_millis(5000))).unwrap();
         let mut cfg: Config = Default::default();
         cfg.endpoint_config.max_receive_rate = max_receive_rate;
         cfg.endpoint_config.max_receive_alloc = max_receive_alloc;
